@@ -53,6 +53,9 @@ class ElementTriN3(ElementHcurl):
                     target_swap = i - 2
                 swap_condition = 1  # Swap if orient > 0
 
+        # shared points (dim, npoints) or per-cell points (dim, ncells, npoints)
+        piola = 'ijkl,il,k->jkl' if len(X.shape) == 2 else 'ijkl,ikl,k->jkl'
+
         def get_lbasis_fixed(idx):
             p, dp = self.lbasis(X, idx)
             if 6 <= idx <= 8:
@@ -67,7 +70,7 @@ class ElementTriN3(ElementHcurl):
             invDF = mapping.invDF(X, tind)
             detDF = mapping.detDF(X, tind)
 
-            val_final = np.einsum('ijkl,il,k->jkl', invDF, phi, orient)
+            val_final = np.einsum(piola, invDF, phi, orient)
             curl_final = dphi / detDF * orient[:, None]
 
         else:
@@ -77,10 +80,10 @@ class ElementTriN3(ElementHcurl):
             invDF = mapping.invDF(X, tind)
             detDF = mapping.detDF(X, tind)
 
-            val_A = np.einsum('ijkl,il,k->jkl', invDF, phi_A, orient)
+            val_A = np.einsum(piola, invDF, phi_A, orient)
             curl_A = dphi_A / detDF * orient[:, None]
 
-            val_B = np.einsum('ijkl,il,k->jkl', invDF, phi_B, orient)
+            val_B = np.einsum(piola, invDF, phi_B, orient)
             curl_B = dphi_B / detDF * orient[:, None]
 
             if swap_condition == -1:
